@@ -180,6 +180,11 @@ let record_has_invalid_name d =
   List.exists (fun q -> unescape q.q_name = None) d.d_qd
   || List.exists (fun r -> List.exists (fun n -> unescape n = None) (rr_names r)) (d.d_an @ d.d_ns @ d.d_ar)
 
+(* an RCODE above 15 in a record without an OPT RR in the additional section: cannot be written *)
+let record_rcode_needs_opt d =
+  int_of_z d.d_rcode > 15 && not (List.exists (fun r -> int_of_z r.rr_type = 41) d.d_ar)
+let with_rcode d rc = { d with d_rcode = rc }
+
 (* C03 oracle on the implementation's own output: r = dump of the record that was written,
    then the W / V / X lines *)
 let roundtrip_oracle k r lines =
@@ -198,7 +203,9 @@ let roundtrip_oracle k r lines =
           if not (record_eqb a b) then
             Printf.printf "FAIL %d %s %s :: written=[%s] reparsed=[%s]\n" k
               (if record_has_long_txt a then "roundtrip-fields-txt-over-255"
-               else if record_has_invalid_name a then "roundtrip-invalid-name-accepted" else "roundtrip-fields") (record_diff a b) r (after "0 " v)
+               else if record_has_invalid_name a then "roundtrip-invalid-name-accepted"
+               else if record_rcode_needs_opt a && record_eqb (with_rcode a b.d_rcode) b then "roundtrip-rcode-needs-opt"
+               else "roundtrip-fields") (record_diff a b) r (after "0 " v)
           else if record_canonical a then
             (* names in canonical presentation form: re-serialising must give the same octets *)
             (match get_lines "X " lines with
